@@ -514,6 +514,131 @@ func runLZW(c *Ctx, rule string) {
 		}
 	}
 
+	// ---- decoder: a consumed data code is recorded before decode() returns or takes the next code
+	{
+		var inc *ssa.Store
+		for _, b := range decode.Blocks {
+			for _, in := range b.Instrs {
+				if st, ok := in.(*ssa.Store); ok {
+					if f, _, ok := fieldOfAddr(st.Addr); ok && f == "hi" {
+						if bo, ok := st.Val.(*ssa.BinOp); ok && bo.Op == token.ADD {
+							inc = st
+						}
+					}
+				}
+			}
+		}
+		reads := fieldWriteCalls(decode, "read")
+		if inc != nil && len(reads) == 1 {
+			rd := reads[0]
+			h := loopHeaderOf(rd.Block())
+			var codeV ssa.Value
+			for _, ref := range *rd.Referrers() {
+				if ex, ok := ref.(*ssa.Extract); ok && ex.Index == 0 {
+					codeV = ex
+				}
+			}
+			isErrStore := func(in ssa.Instruction) bool {
+				if st, ok := in.(*ssa.Store); ok {
+					if f, _, ok := fieldOfAddr(st.Addr); ok && f == "err" {
+						return true
+					}
+				}
+				return false
+			}
+			old := pathEdgeFilter
+			pathEdgeFilter = func(p, sb *ssa.BasicBlock) bool {
+				for _, g := range edgeGuard(p, sb) {
+					pd := predOf(g)
+					// the clear code restarts the table and is not a data code
+					if pd.Kind == "eq" && len(pd.L.T) == 2 && codeV != nil {
+						hasCode, hasClear := false, false
+						for a := range pd.L.T {
+							if a == render(codeV) {
+								hasCode = true
+							}
+							if strings.HasSuffix(a, ".clear") {
+								hasClear = true
+							}
+						}
+						if hasCode && hasClear {
+							return true
+						}
+					}
+					if pd.Kind == "same" && codeV != nil && (strings.HasSuffix(pd.A, ".clear") || strings.HasSuffix(pd.B, ".clear")) && (pd.A == render(codeV) || pd.B == render(codeV)) {
+						return true
+					}
+				}
+				return false
+			}
+			tr, reach := pathAvoiding(decode, rd, func(in ssa.Instruction) bool {
+				return isReturn(in) || (h != nil && in == h.Instrs[0])
+			}, func(in ssa.Instruction) bool { return in == ssa.Instruction(inc) || isErrStore(in) })
+			pathEdgeFilter = old
+			c.check(!reach, rule, "decoder: a consumed data code is recorded (last/hi advanced) before decode returns or reads the next code", inc.Pos(), "every non-clear, non-error path passes hi++", "decode can hand back output or read on after consuming a data code without recording it: the next call overwrites that table slot and the decoder runs one code behind the encoder ("+traceString(tr)+")")
+		} else {
+			c.violate(rule, "decoder structure", decode.Pos(), "expected one code read and one hi++")
+		}
+	}
+
+	// ---- encoder: one probe discipline over the whole hash table
+	{
+		var tlen int64
+		nIdx := 0
+		masks := map[int64]token.Pos{}
+		var collect func(v ssa.Value, d int)
+		seenV := map[ssa.Value]bool{}
+		collect = func(v ssa.Value, d int) {
+			if d > 8 || seenV[v] {
+				return
+			}
+			seenV[v] = true
+			switch x := v.(type) {
+			case *ssa.Phi:
+				for _, e := range x.Edges {
+					collect(e, d+1)
+				}
+			case *ssa.BinOp:
+				if x.Op == token.AND {
+					if k, ok := constInt(x.Y); ok {
+						masks[k] = x.Pos()
+						return
+					}
+				}
+				masks[-1] = x.Pos()
+			case *ssa.Convert:
+				collect(x.X, d+1)
+			default:
+				masks[-1] = v.Pos()
+			}
+		}
+		for _, b := range wWrite.Blocks {
+			for _, in := range b.Instrs {
+				ia, ok := in.(*ssa.IndexAddr)
+				if !ok {
+					continue
+				}
+				if f, _, ok := fieldOfAddr(ia.X); !ok || f != "table" {
+					continue
+				}
+				if arr, ok := ia.X.Type().Underlying().(*types.Pointer).Elem().Underlying().(*types.Array); ok {
+					tlen = arr.Len()
+				}
+				nIdx++
+				collect(ia.Index, 0)
+			}
+		}
+		okMask := nIdx >= 3 && len(masks) == 1
+		desc := ""
+		for k := range masks {
+			desc += fmt.Sprintf("%#x ", k)
+			if k != tlen-1 {
+				okMask = false
+			}
+		}
+		c.check(okMask, rule, "encoder: every hash-table index (first probe, lookup steps, insertion steps) is reduced with the one mask len(table)−1", wWrite.Pos(), fmt.Sprintf("mask %s over %d index sites", desc, nIdx), fmt.Sprintf("table indices are reduced with masks {%s} (table length %d): lookup and insertion probe different slot sequences, so existing entries are not found and the output is no longer the legacy greedy encoding", desc, tlen))
+	}
+
 	// ---- the pair used by goloop
 	comp, decomp := c.mustFn("common", "", "Compress"), c.mustFn("common", "", "Decompress")
 	if comp != nil && decomp != nil {
